@@ -55,15 +55,3 @@ fn fmt_v1_tcp4_concrete() {
     let a = Addresses::new_tcp4(Ipv4Addr::new(1, 2, 3, 4), Ipv4Addr::new(5, 6, 7, 8), 9, 10);
     assert!(a.to_string().as_bytes() == b"PROXY TCP4 1.2.3.4 5.6.7.8 9 10\r\n");
 }
-
-#[kani::proof]
-#[kani::unwind(64)]
-fn fmt_v1_tcp6_concrete() {
-    let a = Addresses::new_tcp6(
-        Ipv6Addr::new(1, 2, 3, 4, 5, 6, 7, 8),
-        Ipv6Addr::new(9, 10, 11, 12, 13, 14, 15, 16),
-        17,
-        18,
-    );
-    assert!(a.to_string().as_bytes() == b"PROXY TCP6 1:2:3:4:5:6:7:8 9:a:b:c:d:e:f:10 17 18\r\n");
-}
